@@ -2100,7 +2100,9 @@ class _GroupElem(ABC):
         else:
             coordInElem_n = None
 
-        for e in elements_e:
+        # visited in ascending order, the order in which the detected elements are returned:
+        # the reference coordinates kept for a point shared by several elements are those of the last one
+        for e in np.unique(elements_e):
             # get element's node coordinates (x, y, z)
             coordElem = coord[connect[e]]
 
